@@ -185,3 +185,53 @@ func (vc *VC) contractLoopTargets(cc *ssa.CallCommon) ([]staticTarget, []string,
 	}
 	return out, ghosts, true
 }
+
+// loopStoresField: may the loop body overwrite the given field (of any object of that struct
+// type)? Conservative: direct stores to the same (struct type, field), and calls whose effect
+// on reference-typed slots is unknown or includes them.
+func (vc *VC) loopStoresField(li *loopInfo, fa *ssa.FieldAddr) bool {
+	st := fa.X.Type().Underlying().(*types.Pointer).Elem()
+	for b := range li.body {
+		for _, in := range b.Instrs {
+			switch x := in.(type) {
+			case *ssa.Store:
+				if f2, ok := x.Addr.(*ssa.FieldAddr); ok {
+					t2 := f2.X.Type().Underlying().(*types.Pointer).Elem()
+					if types.Identical(t2, st) && f2.Field == fa.Field {
+						return true
+					}
+					continue
+				}
+				// a store through another kind of address (element of a slice, local variable):
+				// it can only hit the field if it writes a reference-sorted leaf through an
+				// interior pointer; stores of whole structs of the same type are covered too
+				if types.Identical(x.Val.Type(), st) {
+					return true
+				}
+			case ssa.CallInstruction:
+				cc := x.Common()
+				if _, isB := cc.Value.(*ssa.Builtin); isB {
+					continue
+				}
+				if vc.callIsPure(cc) || isLockOp(calleeName(cc)) != "" {
+					continue
+				}
+				if n := calleeName(cc); strings.HasPrefix(n, "sort.") || strings.HasPrefix(n, "sync/atomic.") {
+					continue
+				}
+				ts, _, ok := vc.contractLoopTargets(cc)
+				if !ok {
+					return true
+				}
+				for _, t := range ts {
+					if t.sort == SRef {
+						return true
+					}
+				}
+			case *ssa.Go, *ssa.Send, *ssa.Select:
+				return true
+			}
+		}
+	}
+	return false
+}
